@@ -17,6 +17,7 @@ Ended == vAct.res = "collide"
 NAssets == atoi(EnvOr("VERIF_NASSETS", "2"))
 BuildFirst == \A i \in DOMAIN hist : /\ (i <= NAssets) = (hist[i].act.op = "AddAsset")
                                       /\ hist[i].act.op \in {"AddAsset", "AddAssociation", "SetDefense"}
+                                      /\ (hist[i].act.op = "AddAsset" => hist[i].act.allowDup)
 EmitOK == IF EnvOr("VERIF_BUILDFIRST", "0") = "1" THEN BuildFirst ELSE TRUE
 Emit == ((TLCGet("level") = Depth + 1 \/ Ended) /\ FewRej /\ EmitOK) => PrintT(ToJson([lang |-> EnvOr("VERIF_LANG", "LTiny"), hist |-> hist, abs |-> AbsLegacy, neo |-> [nodes |-> NeoNodes, rels |-> NeoRels]]))
 StopAtEnd == ~Ended
